@@ -35,6 +35,12 @@ def option_model(opts, reg):
     return enabled, group_set
 
 
+def hash_text(t):
+    import hashlib
+    return int.from_bytes(hashlib.blake2b(t.encode(), digest_size=8).digest(),
+                          'big')
+
+
 def declares(tokens):
     """Which theories does the input declare something of?  (sort of a
     declared constant, result sort of a declared / defined function, body of a
@@ -123,6 +129,26 @@ class C14(props.Prop):
                                    '(define-fun g ())', '(define-sort S)',
                                    '(declare-const)', '(declare-fun h ())'])
                 lines.insert(rng.randint(first, len(lines)), junk)
+            text = '\n'.join(lines) + '\n'
+        import random
+        r2 = random.Random(hash_text(text))
+        if r2.random() < 0.25:
+            # a theory that occurs only nested inside another sort (array
+            # element / index, parameter of a defined sort)
+            inner = r2.choice(['(_ BitVec 4)', 'Int', 'Real', 'String',
+                               '(_ FloatingPoint 5 11)', 'RoundingMode',
+                               '(Seq Bool)'])
+            decl = r2.choice([
+                '(declare-const nst (Array Bool {s}))',
+                '(declare-const nst (Array {s} Bool))',
+                '(declare-fun nst () (Array Bool (Array Bool {s})))',
+                '(define-sort NSort () (Array Bool {s}))',
+            ]).format(s=inner)
+            lines = text.rstrip('\n').split('\n')
+            first = 0
+            while first < len(lines) and lines[first].startswith('(set-'):
+                first += 1
+            lines.insert(r2.randint(first, len(lines)), decl)
             text = '\n'.join(lines) + '\n'
         spec = workload.base_spec(rng,
                                   jobs=(1, 1, 2),
